@@ -507,6 +507,32 @@ func genEqualCase(r *rng, id string) *EqualCase {
 			}
 			a, b = instOf(x), instOf(y)
 		}
+		if r.chance(1, 8) {
+			// json.Number on both sides: one number under several spellings (equal), a number
+			// against the string that spells it (unequal), numbers of different groups (unequal)
+			groups := [][]string{{"1", "1.0", "1e0", "10e-1", "0.1e1"}, {"100", "1e2", "100.0", "1E2"}, {"-0", "0", "0.0", "0e5"},
+				{"2.5", "25e-1", "2.50"}, {"9007199254740993", "9007199254740993.0", "9.007199254740993e15"}}
+			grp := pick(r, groups)
+			var x, y any
+			switch r.intn(4) {
+			case 0, 1:
+				x, y = json.Number(pick(r, grp)), json.Number(pick(r, grp))
+			case 2:
+				x, y = json.Number(pick(r, grp)), pick(r, grp)
+			default:
+				x, y = json.Number(pick(r, grp)), json.Number(pick(r, pick(r, groups)))
+			}
+			if r.chance(1, 2) {
+				x, y = y, x
+			}
+			switch r.intn(3) {
+			case 0:
+				x, y = []any{x}, []any{y}
+			case 1:
+				x, y = map[string]any{"k": x}, map[string]any{"k": y}
+			}
+			a, b = instOf(x), instOf(y)
+		}
 		if a.Sx != b.Sx {
 			diffKinds++
 		}
